@@ -2396,6 +2396,34 @@ async def c06_next_bounded(w):
             elif got is not None and all(sp[0] != "cron" for sp in specs) and got_adj != got and len(failures) < int(w.get("max_failures", 3)):
                 failures.append({"signature": f"adj:{texts}@{now.isoformat()}", "specs": texts, "now": now.isoformat(), "observed": f"wait until {got_adj}",
                                  "expected": f"once/period instants are naive local arithmetic: wait until {got}"})
+    # year ends, exhaustively on a small grid: year-less dates near the end / start of the year, with offsets that carry the
+    # instant across the year end in either direction, looked at from current times on both sides of it
+    grid_dates = [("md", 12, 31), ("md", 12, 30), ("md", 1, 1), ("md", 1, 2)]
+    grid_tods = [("omitted",), ("hms", 12, 0, None), ("hms", 23, 0, None)]
+    grid_offs = [None, ("+", 1, 86400), ("+", 2, 86400), ("-", 1, 86400), ("-", 2, 86400), ("+", 36, 3600), ("-", 36, 3600), ("+", 1, 604800)]
+    grid_nows = [dtm.datetime(y, m, d, hh, mi) for (y, m, d) in ((2024, 12, 29), (2024, 12, 30), (2024, 12, 31), (2025, 1, 1), (2025, 1, 2), (2025, 1, 3), (2024, 1, 1), (2023, 12, 31))
+                 for (hh, mi) in ((0, 0), (6, 30), (12, 0), (23, 30))]
+    if not only or only == "once":
+        for date in grid_dates:
+            for tod in grid_tods:
+                for off in grid_offs:
+                    sp = ("once", (date, tod, off), f"once({c06_render_dt(rng, (date, tod, off))})")
+                    extra = []
+                    for base in grid_nows[::5]:
+                        r = c06_next_reference(sp, base, startup)
+                        if r is not None:
+                            extra += [r - us, r]
+                    for now in grid_nows + extra:
+                        want = c06_next_reference(sp, now, startup)
+                        try:
+                            got, _adj = await TrigTime.timer_trigger_next(sp[2], now, startup)
+                        except Exception as e:  # noqa
+                            got = "exception:" + repr(e)
+                        cases += 1
+                        by_kind["once@year-end"] = by_kind.get("once@year-end", 0) + 1
+                        if got != want and len(failures) < int(w.get("max_failures", 3)):
+                            failures.append({"signature": f"next:{[sp[2]]}@{now.isoformat()}", "specs": [sp[2]], "now": now.isoformat(), "startup": startup.isoformat(),
+                                             "observed": str(got), "expected": str(want)})
     # daylight saving: cron follows the wall clock (the WAIT is 23 h / 25 h across a change), period stays equally spaced
     import zoneinfo
     from homeassistant.util import dt as dt_util
@@ -2425,7 +2453,7 @@ async def c06_next_bounded(w):
         dt_util.set_default_time_zone(saved_tz)
     await shutdown()
     return {"unit": "TrigTime.timer_trigger_next + parse_date_time + parse_time_offset on real text", "method": "structured random specs vs denotation computed from the structure",
-            "bound": f"{n} specification lists (<= 3 specs) x <= 14 current times (denoted instants +/- 1us, leap day, year end, DST days)", "cases": cases,
+            "bound": f"{n} specification lists (<= 3 specs) x <= 14 current times (denoted instants +/- 1us, leap day, year end, DST days); year-end grid: 4 year-less dates x 3 times of day x 8 offsets x 32+ current times", "cases": cases,
             "specs_by_kind": by_kind, "failures": failures, "reproduced": bool(failures)}
 
 
